@@ -181,20 +181,27 @@ def gen_cases(rec, rng, tier):
     thorough = tier == 'thorough'
     for R in common.shard_slice(fag.enum_dfas(3, 2), rec):
         yield {'cls': 'enum_dfa', 'ref': R, 'iso': h64(R)}
+    for R in common.shard_slice(fag.enum_dfas(4, 1), rec):
+        if len(R[0]) == 4:
+            yield {'cls': 'enum_dfa_4_states_unary', 'ref': R, 'iso': h64(R)}
+    if thorough:
+        for i, R in enumerate(fag.enum_dfas(4, 2, 2)):
+            if len(R[0]) == 4 and i % 60 == (rec.seed % 60) and (i // 60) % rec.nshards == rec.shard:
+                yield {'cls': 'enum_dfa_4_states_sampled', 'ref': R, 'iso': h64(R)}
     # hostile families and schedule-sensitive cases run in EVERY shard (different hash seed each)
     for (cls, R) in fag.hostile_dfas(rng):
         yield {'cls': cls, 'ref': R, 'iso': h64(R)}
         for _ in range(3):
             yield {'cls': cls + '_renamed', 'ref': fag.random_renaming(rng, R), 'iso': h64(R)}
-    for _ in range(250 if thorough else 70):
+    for _ in range(1000 if thorough else 70):
         n = rng.randint(2, 8)
         k = rng.randint(1, 3)
-        R = rng.choice([fag.random_dfa, fag.random_connected_dfa])(rng, n, k, p_final=rng.choice([0.2, 0.5, 0.8]))
+        R = fag.maybe_digits(rng, rng.choice([fag.random_dfa, fag.random_connected_dfa])(rng, n, k, p_final=rng.choice([0.2, 0.5, 0.8])))
         yield {'cls': 'random_dfa', 'ref': R, 'iso': h64(R)}
         for _ in range(8 if thorough else 3):
             yield {'cls': 'random_dfa_renamed', 'ref': fag.random_renaming(rng, R), 'iso': h64(R)}
     # blown-up DFAs: product of a small DFA with a counter -> many equivalent states
-    for _ in range(60 if thorough else 15):
+    for _ in range(250 if thorough else 15):
         B = fag.random_connected_dfa(rng, rng.randint(1, 3), 2)
         m = rng.randint(2, 3)
         Q = ['%s_%d' % (q, i) for q in B[0] for i in range(m)]
